@@ -8,7 +8,7 @@ from k1 import Unit
 #   "as_written"  /repo before the repairs of findings 6, 8 and 15   (init ... fixed := false)
 #   "fixed"       /repo with out/C14/fix_epoll_*.diff applied          (init ... fixed := true)
 # Flip this single line to "fixed" once the diffs of the C14 report are applied to /repo.
-MODEL_VARIANT = "as_written"
+MODEL_VARIANT = "fixed"
 # (development / mutation tests only: VERIF_C14_MODEL_VARIANT=fixed overrides the constant)
 VARIANT = os.environ.get("VERIF_C14_MODEL_VARIANT") or MODEL_VARIANT
 
@@ -24,8 +24,8 @@ class EpollRemoteQueue(Unit):
     (0 = I/O thread, 1..k producers, k+1 stopper)."""
     name = "io_epoll_context/RemoteQueue"; driver = "k1_epoll_rq"; cfg = "shim17"; handler = "remotequeue"
     bound = {"quick": 2, "thorough": 3}
-    maxruns = {"quick": 2500, "thorough": 30000}
-    nrandom = {"quick": 300, "thorough": 3000}
+    maxruns = {"quick": 2500, "thorough": 18000}
+    nrandom = {"quick": 300, "thorough": 2000}
 
     def programs(self, tier):
         progs = [("1", "1", "end"), ("1", "2", "any"), ("2", "1", "any"), ("2", "2", "end"), ("1", "1", "pre"),
@@ -99,8 +99,8 @@ class EpollIoCancel(Unit):
     peer -> 4; stopper -> 5."""
     driver = "k1_epoll_io"; cfg = "shim17"; handler = "iocancel"
     bound = {"quick": 2, "thorough": 3}
-    maxruns = {"quick": 1500, "thorough": 20000}
-    nrandom = {"quick": 150, "thorough": 2000}
+    maxruns = {"quick": 1500, "thorough": 10000}
+    nrandom = {"quick": 150, "thorough": 1000}
 
     def __init__(self, opk=0):
         self.opk = opk
